@@ -194,14 +194,17 @@ let () =
             let kind = List.hd rt in
             Hashtbl.replace status m (kind, !opno);
             (* the modelled SLR construction (LR(0) automaton, FOLLOW, ResolveConflicts) against the Go one *)
-            if m = "slr" && kind <> "INVALID" then begin
-              let mres = build_slr slr_fuel g levels in
+            if kind <> "INVALID" then begin
+              let mres = match m with
+                | "slr" -> build_slr slr_fuel g levels
+                | "lalr" -> build_lalr slr_fuel g levels
+                | _ -> build_clr slr_fuel g levels in
               let mk = match mres with BuiltOk _ -> "OK" | BuiltConflict _ -> "CONFLICT" | BuiltError -> "ERR" | BuiltNoFuel -> "NOFUEL" in
-              bump ("model_slr_" ^ mk) 1;
+              bump ("model_" ^ m ^ "_" ^ mk) 1;
               let gk = if starts_with kind "ERR" then "ERR" else kind in
               if mk = "NOFUEL" then ()
               else if (gk = "OK" || gk = "CONFLICT" || gk = "ERR") && gk <> mk then
-                mism !opno "fidelity" (Printf.sprintf "slr construction: implementation %s, modelled construction %s" gk mk)
+                mism !opno "fidelity" (Printf.sprintf "%s construction: implementation %s, modelled construction %s" m gk mk)
               else match mres with
                 | BuiltOk mt when gk = "OK" ->
                   let pt = parse_table (List.tl rt) in
@@ -210,9 +213,9 @@ let () =
                      let a = canon_table gt and b = canon_table mt in
                      if a <> b then begin
                        let only l1 l2 = List.filter (fun x -> not (List.mem x l2)) l1 in
-                       mism !opno "fidelity" (Printf.sprintf "slr table differs from the modelled construction after canonical renumbering: only in implementation [%s], only in model [%s]"
-                         (String.concat " " (only a b)) (String.concat " " (only b a)))
-                     end else bump "slr_tables_equal_to_model" 1
+                       mism !opno "fidelity" (Printf.sprintf "%s table differs from the modelled construction after canonical renumbering: only in implementation [%s], only in model [%s]"
+                         m (String.concat " " (only a b)) (String.concat " " (only b a)))
+                     end else bump (m ^ "_tables_equal_to_model") 1
                    | _ -> ())
                 | _ -> ()
             end;
